@@ -16,6 +16,9 @@ SPEC = {
              "ServerAuthHandler with sealed secrets: listen party, target party, stranger authenticated by a correct HMAC; refused "
              "handshake; never-handshaken; phase 1 only = challenge pending for client 1001; phase 2 answered wrongly), plus the "
              "configuration without executor (handleDefaultCommand) and the entry point ProcessCommand (predicate only) x claimed fields x request/response packet type x "
+             "connection histories (several handshakes on ONE connection — re-authentication as another client, failed or pending "
+             "attempts after a login, login after attempts — with read-only registry commands between the steps, next to an earlier "
+             "or later login of the same client elsewhere) x "
              "named object (own / other party's / stranger's / empty / unknown id; codes: unused / marked used / really activated by a "
              "given client through ConnectionCodeService so that the mapping it created exists) x target client; claimed SenderId/ReceiverId/Token "
              "range over numbers, garbage AND things that exist in the world (`@c<i>` the connection id of another — live, "
